@@ -1,0 +1,8 @@
+//go:build verif
+
+package pop3
+
+import "github.com/inbucket/inbucket/v3/pkg/storage"
+
+// VerifStore returns the store this server's sessions read and delete from (verification harness only).
+func (s *Server) VerifStore() storage.Store { return s.store }
